@@ -102,15 +102,23 @@ class SimBus:
                 if res is not None:
                     out = list(res)
         for f in out:
-            self._route(src, f)
+            # a fault plan may emit frames on behalf of another station (f.src names it)
+            origin = src if f.src == src.name else self._by_name(f.src)
+            self._route(origin, f)
         return frame
+
+    def _by_name(self, name):
+        for st in self.stations:
+            if st.name == name:
+                return st
+        return None
 
     def inject(self, can_id, data, src="inject", ext=False, rtr=False, exclude=None):
         """Deliver a frame that no station emitted (disturbance)."""
         with self.lock:
             frame = Frame(self.now(), src, can_id, ext, rtr, data, threading.get_ident(), True)
             self.log.append(frame)
-        self._route(exclude, frame)
+        self._route(exclude if exclude is not None else self._by_name(src), frame)
         return frame
 
     def _route(self, src, frame):
